@@ -58,7 +58,12 @@ def rand_structure(rng, lat):
             atoms.append(Atom(rng.choice(["C", "Na", "Cl", "O2-"]), xyz, occupancy=round(rng.uniform(0.1, 1), 3), U=U))
         else:
             atoms.append(Atom(rng.choice(["C", "Na", "Cl"]), xyz, occupancy=round(rng.uniform(0.1, 1), 3), Uisoequiv=round(rng.uniform(0, 0.05), 4)))
-    return Structure(atoms, lattice=lat)
+    S = Structure(atoms, lattice=lat)
+    for a in S:
+        # an isotropic-valued tensor carried by an atom flagged anisotropic (as CIF files with full Uij lists do)
+        if not a.anisotropy and rng.random() < 0.4:
+            a.anisotropy = True
+    return S
 
 
 def observe(S):
